@@ -81,6 +81,7 @@ fn reader_subject(sub: &ReaderSubject, si: usize, args: &Args, rep: &mut Report,
         rep.begin(&id);
         let ctl = Ctl::new();
         ctl.fault_at.set(Some(k));
+        ctl.fault_kind_sel.set(si as u64);
         ctl.fault_kind.set(FaultKind::Error);
         let r = open_with(sub, ctl.clone());
         let fired = ctl.fault_fired.get();
@@ -135,6 +136,7 @@ fn reader_subject(sub: &ReaderSubject, si: usize, args: &Args, rep: &mut Report,
                         continue;
                     }
                 };
+                ctl.fault_kind_sel.set(si as u64);
                 ctl.fault_at.set(Some(ctl.ops.get() + k));
                 let r = panicmon::catch(|| rd.read_sample(*tid, sid));
                 let fired = ctl.fault_fired.get();
@@ -230,6 +232,7 @@ fn writer_subject(h: &History, hi: usize, args: &Args, rep: &mut Report, idx: &m
             rep.begin(&id);
             let ctl = Ctl::new();
             ctl.fault_at.set(Some(k));
+            ctl.fault_kind_sel.set(hi as u64);
             ctl.fault_kind.set(kind);
             // which library call is in progress when the fault fires
             let mut fired_in: Option<(usize, String)> = None;
